@@ -636,6 +636,7 @@ func (R *Repository) Close() {
 func (R *Repository) closeRepositoryEntry(entry *Entry, id string) {
 	entry.entryLock.Lock()
 	defer entry.entryLock.Unlock()
+	//the entry stays in the repository: a lookup which is still running while the repository is closed
+	//gets an error from the closed store instead of silently skipping the crl
 	entry.CRLStore.Close()
-	R.crlRepository[id] = nil
 }
